@@ -323,11 +323,12 @@ func (e *EdgeQuery) Distance(target distanceTarget) s1.ChordAngle {
 //
 //	query.IsDistanceLess(target, limit.Successor())
 func (e *EdgeQuery) IsDistanceLess(target distanceTarget, limit s1.ChordAngle) bool {
-	opts := e.opts
-	opts = opts.MaxResults(1).
+	// Apply the per-call overrides to a copy: e.opts belongs to the caller.
+	opts := *e.opts
+	opts.MaxResults(1).
 		DistanceLimit(limit).
 		MaxError(s1.StraightChordAngle)
-	return !e.findEdge(target, opts).IsEmpty()
+	return !e.findEdge(target, &opts).IsEmpty()
 }
 
 // IsDistanceGreater reports if the distance to target is greater than limit.
@@ -369,13 +370,17 @@ func (e *EdgeQuery) IsConservativeDistanceGreaterOrEqual(target distanceTarget, 
 // entries with edgeID == -1. This indicates that the target intersects the
 // indexed polygon with the given shapeID.
 func (e *EdgeQuery) findEdges(target distanceTarget, opts *queryOptions) []EdgeQueryResult {
+	// findEdgesInternal points e.opts at the options of this call; restore
+	// the query's own options afterwards.
+	userOpts := e.opts
 	e.findEdgesInternal(target, opts)
 	// TODO(roberts): Revisit this if there is a heap or other sorted and
 	// uniquing datastructure we can use instead of just a slice.
 	e.results = sortAndUniqueResults(e.results)
-	if len(e.results) > e.opts.maxResults {
-		e.results = e.results[:e.opts.maxResults]
+	if len(e.results) > opts.maxResults {
+		e.results = e.results[:opts.maxResults]
 	}
+	e.opts = userOpts
 	return e.results
 }
 
@@ -401,8 +406,10 @@ func sortAndUniqueResults(results []EdgeQueryResult) []EdgeQueryResult {
 // This is primarily to ease the usage of a number of the methods in the DistanceTargets
 // and in EdgeQuery.
 func (e *EdgeQuery) findEdge(target distanceTarget, opts *queryOptions) EdgeQueryResult {
-	opts.MaxResults(1)
-	e.findEdges(target, opts)
+	// Work on a copy so that the caller's options keep their MaxResults.
+	single := *opts
+	single.MaxResults(1)
+	e.findEdges(target, &single)
 	if len(e.results) > 0 {
 		return e.results[0]
 	}
